@@ -163,11 +163,18 @@ func (t Token) Validate() error {
 	if err := tokentypes.ValidateName(t.Name); err != nil {
 		return err
 	}
+	// NOTE: a token bound to an ERC20 contract may have been created by MsgDeployERC20 for a
+	// traced denom (e.g. an IBC voucher "ibc/HASH"): its symbol and min unit then follow the rule
+	// of MsgDeployERC20.ValidateBasic, and such a token must still pass genesis validation.
 	if err := tokentypes.ValidateSymbol(t.Symbol); err != nil {
-		return err
+		if len(t.Contract) == 0 || ValidateERC20(t.Symbol) != nil {
+			return err
+		}
 	}
 	if err := tokentypes.ValidateMinUnit(t.MinUnit); err != nil {
-		return err
+		if len(t.Contract) == 0 || ValidateERC20(t.MinUnit) != nil {
+			return err
+		}
 	}
 	if err := tokentypes.ValidateInitialSupply(t.InitialSupply); err != nil {
 		return err
